@@ -48,10 +48,11 @@ def run_case(case):
     viol = []
     op = case["op"]
 
-    def one(split_mode, split_sizes, entries, triple, tag):
+    def one(split_mode, split_sizes, entries, triple, tag, slow=0.0):
         sess = gen.make_session(case["impl"], dims, case["seed"])
         try:
             plan = sess.sim.sync_plan
+            sess.sim.wrte_delay = slow        # a slow device: each reply WRTE comes `slow` seconds after the previous one (each wait below the limits, the whole reply far above)
             plan.split_mode = split_mode
             plan.split_sizes = split_sizes
             if op == "list":
@@ -91,7 +92,15 @@ def run_case(case):
         split = rng.choice(["whole", "random", "random", "bytes1"]) if n <= 10 else rng.choice(["whole", "random"])
         if n > 50 and dims["frag"] == "one":
             dims["frag"] = "random"
-        out = one(split, None, entries, triple, "split=%s frag=%s" % (split, dims["frag"]))
+        slow = 0.0
+        if rng.random() < 0.15 and n <= 50:
+            slow = rng.choice([1.5, 4.0])
+            split, split_sizes_ = "list", [rng.choice([3, 7, 16, 20, 33])]
+            dims["noise"] = [x for x in dims["noise"] if x != "bg"]
+            stats["slow_devices"] = 1
+        else:
+            split_sizes_ = None
+        out = one(split, split_sizes_, entries, triple, "split=%s frag=%s%s" % (split, dims["frag"], " one WRTE every %.1f s" % slow if slow else ""), slow=slow)
         stats["max_entries"] = n
         b = "0" if n == 0 else ("1-3" if n <= 3 else ("<=50" if n <= 50 else ">50"))
         sig = "%s|%s|%s|%s|%s" % (op, case["impl"], b, split, dims["frag"]) if (op == "stat" or n) else None
